@@ -28,6 +28,10 @@ FAMILIES = {
     "general": dict(profile="general", over={"fail_levels": 1, "fanout_handlers": False}),
     "fanout_fail": dict(profile="fanout_fail", over={"fail_levels": 1, "fanout_handlers": False}),
     "retry": dict(profile="retry", over={"fail_levels": 1, "fanout_handlers": False}),
+    # Catch on the Map/Parallel state itself (every ResultPath form) with failing branches; no Retry anywhere, so the
+    # recorded C06/C07 findings (sibling in a Retry back-off; RetryCount leaking into the fan-out) cannot be touched
+    "fanout_caught": dict(profile="fanout_fail", over={"fail_levels": 1, "fanout_handlers": True, "p_retry": 0.0,
+                                                       "p_catch": 0.8, "p_err": 0.45}),
 }
 
 POLICIES = ["canonical", "shuffle", "pct", "latency-small", "latency-heavy", "ties"]
